@@ -39,19 +39,30 @@ def main():
     notes = []
 
     # ---- 1. build + audit ---------------------------------------------------------------
-    gen_info = registry.regenerate(prop)
-    ok, log = (True, "") if args.no_build else leanbuild.lake_build()
-    build_failed = []
+    from . import generate
+    gen_names = R.get("generated", [])
+    gen_info = generate.run(gen_names)
+    for gname, gi in gen_info.items():
+        if "error" in gi:
+            problems.append(dict(kind="proof-obligation", detail="generator %s cannot read the source any more: %s" % (gname, gi["error"])))
+    modules = R["modules"]
+    gen_modules = R.get("generated_modules", [])
+    ok, log = (True, "") if args.no_build else leanbuild.lake_build(["OASModel", "OASDriver", "oasdriver"])
     if not ok:
-        build_failed = leanbuild.failed_modules(log)
-        gen_related = [m for m in build_failed if "Generated" in m or m in R.get("generated_dependents", [])]
-        if not gen_related:
-            # a build failure that does not involve a file regenerated from /repo is ours
+        print(log[-3000:])
+        print("INFRASTRUCTURE: lake build of the model/driver failed")
+        return 2
+    ok, log = (True, "") if args.no_build else leanbuild.lake_build(modules)
+    if not ok:
+        failed = leanbuild.failed_modules(log)
+        if not gen_modules or not all(m in gen_modules for m in failed):
+            # a failure in a module that does not depend on data regenerated from /repo is ours
             print(log[-3000:])
-            print("INFRASTRUCTURE: lake build failed in modules", build_failed)
+            print("INFRASTRUCTURE: lake build failed in modules", failed)
             return 2
-        problems.append(dict(kind="proof-obligation", detail="lake build failed in %s (regenerated from /repo)" % gen_related,
-                             log=log[-1500:]))
+        problems.append(dict(kind="proof-obligation",
+                             detail="theorems about data regenerated from /repo no longer check: %s" % failed,
+                             log=[l for l in log.split("\n") if "error" in l][:8]))
     hits = leanbuild.forbidden_hits()
     if hits:
         print("\n".join(hits))
@@ -61,24 +72,24 @@ def main():
     discharged = 0
     axioms_seen = set()
     missing = []
-    if ok:
-        res, out = leanbuild.audit(theorems)
-        for t in theorems:
-            ax = res.get(t)
-            if ax is None:
-                missing.append(t)
-            elif ax <= leanbuild.ALLOWED_AXIOMS:
-                discharged += 1
-                axioms_seen |= ax
+    broken_theorems = []
+    res, out = leanbuild.audit(theorems, imports=[m for m in modules if ok or m not in gen_modules])
+    for t in theorems:
+        ax = res.get(t)
+        if ax is None:
+            if not ok and any(t.startswith(pref) for pref in R.get("generated_theorem_prefixes", [])):
+                broken_theorems.append(t)
             else:
-                missing.append(t + " (axioms %s)" % sorted(ax))
-        if missing:
-            print(out[-2000:])
-            print("INFRASTRUCTURE: registered theorems missing or with unexpected axioms:", missing)
-            return 2
-    else:
-        # theorems in modules that failed are undischarged
-        discharged = 0
+                missing.append(t)
+        elif ax <= leanbuild.ALLOWED_AXIOMS:
+            discharged += 1
+            axioms_seen |= ax
+        else:
+            missing.append(t + " (axioms %s)" % sorted(ax))
+    if missing:
+        print(out[-2000:])
+        print("INFRASTRUCTURE: registered theorems missing or with unexpected axioms:", missing)
+        return 2
 
     # ---- 2. correspondence --------------------------------------------------------------
     st = suites.Stats()
@@ -128,6 +139,7 @@ def main():
         p0 = problems[0]
         path = write_replay(core, prop, dict(kind="no-failing-input-found", property=prop, seed=core.SEED, tier=args.tier,
                                              broken=problems[:10],
+                                             theorems_no_longer_checking=broken_theorems,
                                              theorems_no_longer_tied=theorems,
                                              note="the model no longer corresponds to the code (or an obligation regenerated "
                                                   "from /repo no longer checks); the oracles found no failing input"))
@@ -137,7 +149,7 @@ def main():
     ev = dict(
         property_id=prop, tier=args.tier, seed=core.SEED, level="proof",
         coverage=dict(
-            obligations=len(theorems), discharged=discharged if not problems or ok else discharged,
+            obligations=len(theorems), discharged=discharged,
             checker_cmd="cd /verif/lean && lake build && lake env lean <audit file with #print axioms for the registered theorems>"
                         + (" && lake env leanchecker OASProofs" if args.tier == "thorough" else ""),
             trusted_base=registry.trusted_base(prop, sorted(axioms_seen)),
@@ -157,7 +169,7 @@ def main():
         assumptions=registry.assumptions(prop),
         wall_s=round(wall, 2), violations=len(violations),
     )
-    if args.tier == "thorough" and ok:
+    if args.tier == "thorough" and ok and not args.no_build:
         lc_ok, lc_out = registry.leanchecker()
         ev["coverage"]["leanchecker"] = "ok" if lc_ok else lc_out[-500:]
         if not lc_ok:
